@@ -220,18 +220,18 @@ theorem map_replace_key {α κ} (k : α → κ) (key : α → Nat) (l : List α)
   · rename_i hc; exact (h x hx (by simpa using hc)).symm
   · rfl
 
-theorem Frame.of_setRa {s : St} {r r0 : Rollapp} (u : Uniq s) (hg : getRa s r.id = some r0)
+theorem Frame.of_setRa {s : St} {id : Nat} {r r0 : Rollapp} (u : Uniq s) (hg : getRa s id = some r0) (hid : r.id = r0.id)
     (hp : r.proposer = r0.proposer) (hs : r.successor = r0.successor) : Frame s (setRa s r) := by
   refine ⟨?_, rfl, rfl, rfl, rfl⟩
   unfold Core.setRa
   dsimp only
   apply map_replace_key rkey (·.id)
   intro x hx e
-  have : x = r0 := u.ids.eq_of_mem hx (getRa_mem hg) (e.trans (getRa_id hg).symm)
+  have : x = r0 := u.ids.eq_of_mem hx (getRa_mem hg) (e.trans hid)
   subst this
   simp [rkey, e, hp, hs]
 
-theorem Frame.of_setSeq {s : St} {q q0 : Seq} (u : Uniq s) (hg : getSeq s q.addr = some q0)
+theorem Frame.of_setSeq {s : St} {a : Addr} {q q0 : Seq} (u : Uniq s) (hg : getSeq s a = some q0) (ha : q.addr = q0.addr)
     (h1 : q.rollapp = q0.rollapp) (h2 : q.bonded = q0.bonded) (h3 : q.optedIn = q0.optedIn) (h4 : q.notice = q0.notice) :
     Frame s (setSeq s q) := by
   refine ⟨rfl, ?_, rfl, rfl, rfl⟩
@@ -239,9 +239,23 @@ theorem Frame.of_setSeq {s : St} {q q0 : Seq} (u : Uniq s) (hg : getSeq s q.addr
   dsimp only
   apply map_replace_key skey (·.addr)
   intro x hx e
-  have : x = q0 := u.addrs.eq_of_mem hx (getSeq_mem hg) (e.trans (getSeq_addr hg).symm)
+  have : x = q0 := u.addrs.eq_of_mem hx (getSeq_mem hg) (e.trans ha)
   subst this
   simp [skey, e, h1, h2, h3, h4]
+
+/-- a write of a role-equivalent rollapp record on top of role-irrelevant changes -/
+theorem Frame.of_setRa_eq {s s1 : St} {id : Nat} {r r0 : Rollapp} (u : Uniq s) (hg : getRa s id = some r0)
+    (e1 : s1.ras = s.ras) (e2 : s1.seqs = s.seqs) (e3 : s1.nq = s.nq) (e4 : s1.t = s.t) (e5 : s1.p = s.p)
+    (hid : r.id = r0.id) (hp : r.proposer = r0.proposer) (hs : r.successor = r0.successor) : Frame s (setRa s1 r) :=
+  (Frame.of_eq e1 e2 e3 e4 e5).trans (Frame.of_setRa (u.of_eq e1 e2) (by rw [getRa_congr e1]; exact hg) hid hp hs)
+
+theorem getRa_setRa_same' {s : St} {id : Nat} {r r0 : Rollapp} (hg : getRa s id = some r0) (hid : r.id = r0.id) :
+    getRa (setRa s r) r.id = some r :=
+  getRa_setRa_same (r0 := r0) (by rw [hid, getRa_id hg]; exact hg)
+
+theorem getSeq_setSeq_same' {s : St} {a : Addr} {q q0 : Seq} (hg : getSeq s a = some q0) (ha : q.addr = q0.addr) :
+    getSeq (setSeq s q) q.addr = some q :=
+  getSeq_setSeq_same (q0 := q0) (by rw [ha, getSeq_addr hg]; exact hg)
 
 -- ---------------------------------------------------------------- the invariant
 
